@@ -15,7 +15,9 @@ AUDIT = "PysamlModel/Audit/C04.lean"
 CORRESPONDENCE = "Drivers/Sp.lean (Sp.process) vs Saml2Client.parse_authn_request_response, audience/destination/recipient dimension"
 RULE = ("audience structures: 0-3 AudienceRestrictions x 1-2 Audiences over {own, other, look-alike, padded} enumerated "
         "completely up to 2 restrictions (quick) / 3 (thorough), Destination x Recipient x conv_info x binding product "
-        "enumerated completely, plus random look-alike strings; non-trivial = every case (each is a distinct addressing shape)")
+        "enumerated completely (conversation info: none / entityID / entityID+address / address only / empty / other entityID), the same "
+        "for an SP with indexed 3-tuple endpoints, audience shapes x presence of the Conditions time attributes, a cross-dimension "
+        "random stream, plus random look-alike strings; non-trivial = every case (each is a distinct addressing shape)")
 TRUSTED = C.TRUSTED_COMMON
 ASSUMPTIONS = C.ASSUMPTIONS_COMMON + ["whitespace-padded Audience text is unconstrained by the spec (the property is silent; the code strips)"]
 EXHAUSTIVE = True
@@ -62,6 +64,13 @@ def addr_values(rng, binding):
             ("look1", lookalike(rng, own)), ("look2", lookalike(rng, own)), ("empty", ""), ("entity-id", S.SP_ID)]
 
 
+def per_restriction_small(per_restriction):
+    """all audience structures with 0-2 restrictions"""
+    for n in range(0, 3):
+        for shape in itertools.product(per_restriction, repeat=n):
+            yield shape
+
+
 def gen_cases(rng, tier):
     kinds = ["own", "other", "look", "pad"]
     per_restriction = [list(p) for n in (1, 2) for p in itertools.product(kinds, repeat=n)]
@@ -90,6 +99,7 @@ def gen_cases(rng, tier):
         for (dk, d), (rk, rcp) in itertools.product(vals, vals):
             for ck, conv in (("none", None), ("eid", {"entity_id": S.SP_ID}),
                              ("eid+addr", {"entity_id": S.SP_ID, "remote_addr": "192.0.2.7"}),
+                             ("addr-only", {"remote_addr": "192.0.2.7"}), ("empty", {}),
                              ("other-eid", {"entity_id": OTHER})):
                 c = C.base_case(PROP, binding=binding)
                 c["resp"]["destination"] = d
@@ -97,6 +107,37 @@ def gen_cases(rng, tier):
                 c["env"]["conv_info"] = conv
                 c["tag"] = "addr:%s/%s/%s/%s" % (binding, dk, rk, ck)
                 yield c
+    # the same addressing values for an SP whose consumer endpoints are configured as indexed 3-tuples
+    for binding in ("post", "redirect"):
+        vals = addr_values(rng, binding)
+        for (dk, d), (ck, conv) in itertools.product(vals, (("none", None), ("eid", {"entity_id": S.SP_ID}))):
+            c = C.base_case(PROP, binding=binding)
+            c["cfg"]["endpoints"] = "indexed"
+            c["resp"]["destination"] = d
+            c["env"]["conv_info"] = conv
+            c["tag"] = "addr-indexed:%s/%s/%s" % (binding, dk, ck)
+            yield c
+        for (rk, rcp) in vals:
+            c = C.base_case(PROP, binding=binding)
+            c["cfg"]["endpoints"] = "indexed"
+            c["resp"]["assertions"][0]["subject"]["confs"][0]["data"]["recipient"] = rcp
+            c["env"]["conv_info"] = {"entity_id": S.SP_ID}
+            c["tag"] = "addr-indexed-rcp:%s/%s" % (binding, rk)
+            yield c
+    # audience structures on the attribute-query answer path
+    for shape in per_restriction_small(per_restriction):
+        yield C.as_attr(audience_case(rng, shape), keep_authn=len(shape) % 2 == 0)
+    # audience structure x presence of the two Conditions time attributes (the audience test must not depend on them)
+    small = [[], [["own"]], [["other"]], [["own"], ["other"]], [["other"], ["own"]], [["own", "other"]], [["look"]], [["own"], ["look"]]]
+    for shape, has_nb, has_nooa in itertools.product(small, (True, False), (True, False)):
+        c = audience_case(rng, shape)
+        cond = c["resp"]["assertions"][0]["conditions"]
+        if not has_nb:
+            cond["nb"] = None
+        if not has_nooa:
+            cond["nooa"] = None
+        c["tag"] = "aud-times:%s/nb=%s/nooa=%s" % ("|".join(",".join(r) for r in shape), has_nb, has_nooa)
+        yield c
     # an SP that has NO consumer endpoint for the binding the Response arrives on: every present
     # Destination is foreign
     for endpoints, binding in (("post_only", "redirect"), ("redirect_only", "post"), ("post_only", "post"), ("redirect_only", "redirect")):
@@ -144,6 +185,9 @@ def gen_cases(rng, tier):
         c["env"]["conv_info"] = rng.choice([None, {"entity_id": S.SP_ID}, {"entity_id": S.SP_ID, "remote_addr": "192.0.2.7"}])
         c["tag"] = "multi-conf"
         yield c
+    # cross-dimension stream: every dimension of the SP model varied at once
+    for _ in range(150 if tier == "quick" else 4000):
+        yield C.random_full(rng, PROP)
 
 
 def finding_key(case, impl, lean):
